@@ -1,6 +1,7 @@
 """X08 - the zone's direct (non-transaction) node API and the node exclusivity rules.
 Growth of the specification beyond C01-C20 (DESIGN.md section 7); not in MANIFEST.json."""
 import json
+import os
 
 from drivers import x08_direct
 
@@ -44,7 +45,7 @@ CONSTANTS
   RFSeq <- {rforms}
   TFSeq <- {tforms}
   Rotate = {rotate}
-  Rots = {rots}
+  Rots {rots}
   WithOut = {without}
   Muts = {muts}
 INVARIANT Emit
@@ -66,7 +67,7 @@ def tset(xs):
 def gen(ctx, name, **kw):
     d = dict(names=tset(["@", "a", "b.a"]), types=tset(ALLT), rdids=tset([1, 2]), ttls=tset([300, 600]), filters="MCFilters",
              inits="MCInitAll", shapes="MCShapes", maxops=1, minops=1, ops=tset(ALLOPS), spellings="SP1",
-             rforms="RF1", tforms="TF1", rotate="FALSE", rots="{0}", without="TRUE", muts="{TRUE, FALSE}")
+             rforms="RF1", tforms="TF1", rotate="FALSE", rots="= {0}", without="TRUE", muts="{TRUE, FALSE}")
     sim = {k: kw.pop(k) for k in ("simulate", "depth", "seed", "limit") if k in kw}
     d.update(kw)
     return ctx.generate("Gen_ZoneDirect", ctx.cfg(name, GEN_CFG.format(**d)), deadlock=False, **sim)
@@ -84,6 +85,27 @@ def classify(tr, line, clause):
                                  e.get("exc", ""), ":out" if e.get("n") == "OUT" else "")
 
 
+def note_drift(ctx, traces):
+    """Places where the code does something else than the letter of the documentation without breaking a hard
+    clause (the model admits both): counted, not reported."""
+    d = ctx.extra.setdefault("drift_cases", {"check_origin_no_origin_node_is_NoSOA_not_KeyError": 0,
+                                             "versioned_setitem_delitem_not_UseTransaction": 0,
+                                             "get_soa_empty_rdataset_not_NoSOA": 0, "contains_or_get_out_of_zone_raises": 0})
+    for tr in traces:
+        ev = tr["ev"]
+        for i, e in enumerate(ev[1:], start=1):
+            op, exc = e.get("op"), e.get("exc")
+            if op == "check_origin" and exc == "NoSOA" and not any(r[0] == "@" for r in ev[i - 1]["st"]):
+                d["check_origin_no_origin_node_is_NoSOA_not_KeyError"] += 1
+            elif op in ("setitem", "delitem") and not tr["mut"] and exc not in ("UseTransaction", "KeyError"):
+                d["versioned_setitem_delitem_not_UseTransaction"] += 1
+            elif op == "get_soa" and e["res"] == "err" and exc != "NoSOA":
+                d["get_soa_empty_rdataset_not_NoSOA"] += 1
+            elif op in ("contains", "get") and e.get("n") == "OUT" and e["res"] == "err":
+                d["contains_or_get_out_of_zone_raises"] += 1
+    ctx.drift = sum(d.values())
+
+
 def run(ctx):
     quick = ctx.tier == "quick"
     ctx.rule = ("behaviours = call histories enumerated by TLC from Gen_ZoneDirect (exhaustive single calls and pairs + seeded "
@@ -95,19 +117,22 @@ def run(ctx):
         case = ctx.replay_case["case"]
         jobs = [(case["hist"], case["zclass"], case["rel"], "replay")]
     else:
-        ctx.model("MC_ZoneDirect", "MC_ZoneDirect_quick.cfg", workers=1)
-        ctx.model("MC_ZoneDirect", "MC_ZoneDirect_wide.cfg", workers=1)
-        if not quick:
+        skip_mc = bool(os.environ.get("X08_SKIP_MC"))   # development / mutation testing convenience
+        if not skip_mc:
+            ctx.model("MC_ZoneDirect", "MC_ZoneDirect_quick.cfg", workers=1)
+            ctx.model("MC_ZoneDirect", "MC_ZoneDirect_wide.cfg", workers=1)
+        if not quick and not skip_mc:
             ctx.model("MC_ZoneDirect", "MC_ZoneDirect_thorough.cfg")
             ctx.model("MC_ZoneDirect", "MC_ZoneDirect_deep.cfg")
         hists = []
         # G1: every single call over the full universe (3 names + out-of-zone, 8 types, initial zones, both kinds)
         hists += gen(ctx, "g1.cfg", inits="MCInitQ" if quick else "MCInitAll")
+        n_g1 = len(hists)
         # G1s: every single call in every spelling of the owner name and every argument form (trimmed types / zones)
         hists += gen(ctx, "g1s.cfg", spellings="SP4", rforms="RF2",
                      tforms="TF3", types=tset(["A", "CNAME", "RRSIG/A"]),
                      inits="MCInitA" if quick else "MCInitMid", filters="MCFiltersSmall", shapes="MCShapes1",
-                     ttls=tset([300]) if quick else tset([300, 600]), rdids=tset([1]) if quick else tset([1, 2]),
+                     ttls=tset([300]), rdids=tset([1]) if quick else tset([1, 2]),
                      ops=tset([o for o in ALLOPS if o not in ("keys", "get_soa", "check_origin", "eq", "iterate_rdatasets", "iterate_rdatas")]))
         # G2: all pairs of inserting / deleting calls at one name of a plain zone: the exclusivity rule from every
         #     order of arrival;  G2v: the same through transactions on the versioned zones
@@ -117,26 +142,26 @@ def run(ctx):
         hists += gen(ctx, "g2.cfg", maxops=2, minops=2, names=tset(["a"]), without="FALSE", muts="{TRUE}", ops=tset(G2OPS),
                      types=tset(T2), rdids=tset([1]), ttls=tset([300] if quick else [300, 600]), inits="MCInitTrim",
                      shapes="MCShapesTrim", filters="MCFiltersSmall")
-        hists += gen(ctx, "g2v.cfg", maxops=2 if quick else 3, minops=2, names=tset(["a"]), without="FALSE", muts="{FALSE}",
+        hists += gen(ctx, "g2v.cfg", maxops=2, minops=2, names=tset(["a"]), without="FALSE", muts="{FALSE}",
                      ops=tset(["txn_add", "txn_replace", "txn_deltype", "txn_delname", "node_info"]),
                      types=tset(T2), rdids=tset([1] if quick else [1, 2]), ttls=tset([300, 600]), inits="MCInitTrim",
-                     shapes="MCShapesTrim", filters="MCFiltersSmall", spellings="SPS", tforms="TF2", rotate="TRUE", rots="{0, 1}")
+                     shapes="MCShapesTrim", filters="MCFiltersSmall", spellings="SPS", tforms="TF2", rotate="TRUE", rots="= {0, 1}")
         if not quick:   # G2b: all triples of the creating / inserting calls
             hists += gen(ctx, "g2b.cfg", maxops=3, minops=3, names=tset(["a"]), rdids=tset([1]), ttls=tset([300]),
                          without="FALSE", muts="{TRUE}",
                          ops=tset(["replace_rdataset", "find_rdataset", "txn_add", "delete_rdataset", "node_replace"]),
-                         types=tset(["A", "CNAME", "NSEC", "RRSIG/CNAME", "RRSIG/NSEC"]), inits="MCInitTrim",
+                         types=tset(["A", "CNAME", "NSEC", "RRSIG/CNAME"]), inits="MCInitTrim2",
                          shapes="MCShapesTrim", filters="MCFiltersSmall")
         # G3: seeded random histories of 5 (quick) / 8 calls, full universe; the k-th call of a history uses the
         #     (rot+k)-th spelling / form
-        n, depth = (800, 5) if quick else (10000, 8)
-        hists += gen(ctx, "g3.cfg", maxops=depth, minops=depth, spellings="SP5", rotate="TRUE", rots="0..29",
+        n, depth = (800, 5) if quick else (5000, 8)
+        hists += gen(ctx, "g3.cfg", maxops=depth, minops=depth, spellings="SP5", rotate="TRUE", rots="<- R30",
                      rforms="RF2", tforms="TF3",
                      simulate="num=%d" % n, depth=depth + 3, seed=ctx.seed + 1, limit=4 * n)
         jobs = []
         for i, h in enumerate(hists):
             cfgs = ZCONFIGS[h[0]["mut"]]
-            if quick or len(h) > 3:   # one plain / two versioned configurations per history, rotated; thorough singles: all
+            if quick or i >= n_g1:   # one plain / two versioned configurations per history, rotated; thorough G1: all
                 cfgs = [cfgs[i % 2]] if h[0]["mut"] else [cfgs[i % 4], cfgs[(i + 1) % 4]]
             for zc, rel in cfgs:
                 jobs.append((h, zc, rel, "h%d.%s.%s" % (i, zc, "rel" if rel else "abs")))
@@ -154,6 +179,7 @@ def run(ctx):
                 ctx.sample({"tid": tr["tid"], "ev": tr["ev"][:3]})
         total += len(traces)
         calls += sum(len(tr["ev"]) - 1 for tr in traces)
+        note_drift(ctx, traces)
         rejects += ctx.validate("Trace_ZoneDirect", "Trace_ZoneDirect.cfg", traces)
         del traces
     ctx.evaluations = calls
